@@ -74,6 +74,27 @@ Theorem C04_projection_any_depth : forall strict reg s tB tA om cA cB d vA,
 Proof. exact projection_any_depth. Qed.
 Print Assumptions C04_projection_any_depth.
 
+(* ... and on the bytes (composition with R): for every byte string the reference
+   decoder accepts as datum d, whatever block structure the writer chose, if the
+   full target decodes d then the projected target (fields deleted / reordered
+   only) reads the same bytes successfully, stops at the same byte, and every field
+   that remains holds the same value as in the full decode *)
+Theorem C04_projection_on_bytes : forall reg s tB tA om cA cB fuel bs d r vA,
+  reg_sane reg -> sok s -> tsub true tB tA ->
+  build reg s (Some tA) om = Some cA -> build reg s (Some tB) om = Some cB ->
+  sd fuel s bs = Done d r -> apply_datum cA (zero_of tA) d = Some vA ->
+  c_read fuel cA (zero_of tA) bs = Done vA r /\
+  exists vB, c_read fuel cB (zero_of tB) bs = Done vB r /\ vproj cB cA vB vA.
+Proof.
+  intros reg s tB tA om cA cB fuel bs d r vA Hreg Hok Hs HA HB Hsd Ha.
+  destruct (projection_any_depth true reg s tB tA om cA cB d vA Hreg Hok Hs HA HB Ha) as [Hex Hag].
+  destruct (Hex eq_refl) as [vB Hb]. split.
+  - eapply read_complete; [eapply build_wire; exact HA|exact Hsd|exact Ha].
+  - exists vB. split; [|apply Hag; exact Hb].
+    eapply read_complete; [eapply build_wire; exact HB|exact Hsd|exact Hb].
+Qed.
+Print Assumptions C04_projection_on_bytes.
+
 (* the two halves it is made of: the builder yields related codec trees and
    related zero destinations; related trees decode to related values from any
    related destinations (not only zero ones) *)
